@@ -86,6 +86,21 @@ Proof.
 Qed.
 Print Assumptions C13_decode_rejects_malformed.
 
+(* FINDING (pkg/pdfcpu/primitives/dateField.go: tu = StringLiteral(EncodeUTF16String(df.Tip)), no
+   Escape): the full statement "forall valid s, StringLiteralToString (EncodeUTF16String s) = Ok s"
+   is false; it holds exactly when the UTF-16BE bytes contain no backslash (in a written file the
+   PDF parser additionally needs balanced parentheses, which is outside this model). *)
+Theorem C13_unescaped_literal_refuted :
+  exists s, utf8_valid s = true /\ StringLiteralToString (EncodeUTF16String s) <> Ok s.
+Proof. exact unescaped_literal_refuted. Qed.
+Print Assumptions C13_unescaped_literal_refuted.
+
+Theorem C13_unescaped_literal_partial : forall s, utf8_valid s = true ->
+  no_backslash (EncodeUTF16String s) = true ->
+  StringLiteralToString (EncodeUTF16String s) = Ok s.
+Proof. exact unescaped_literal_partial. Qed.
+Print Assumptions C13_unescaped_literal_partial.
+
 (* non-vacuity: the hypotheses are satisfiable, boundary characters round-trip, errors occur *)
 Example C13_nonvacuous :
   Forall scalar [0x41; 0xD7FF; 0xE000; 0xFFFF; 0x10000; 0x10FFFF]
